@@ -35,6 +35,10 @@ def _grammar_terminals(root):
                     if not isinstance(pat_, str): raise AnalysisError("%s: the regex of a terminal is not a constant string: %s" % (fn.name, ast.unparse(n)[:60]))
                     G |= _regex_literals(pat_)
             regex_args = {id(n.args[0]) for n in ast.walk(fn) if isinstance(n, ast.Call) and getattr(n.func, "id", "") in ("_", "RegExMatch") and n.args}
+            for n in ast.walk(fn):          # a literal of the grammar written as a module-level constant (PATH_UP = "^")
+                if isinstance(n, ast.Name) and isinstance(n.ctx, ast.Load) and id(n) not in regex_args:
+                    v_ = const_str(n, t)
+                    if isinstance(v_, str) and v_ and not any(isinstance(x, ast.FunctionDef) and x.name == n.id for x in t.body): G.add(v_)
             for n in ast.walk(fn):
                 if isinstance(n, ast.Constant) and isinstance(n.value, str) and id(n) not in regex_args and n.value: G.add(n.value)
     return G
